@@ -3,7 +3,7 @@ import glob, json, os
 import vlib
 
 TARGETS = ["Base/Num.vo", "Base/Corr.vo", "C07/Model.vo", "C07/Corr.vo", "C07/Spec.vo", "C07/ProofsBase.vo",
-           "C07/ProofsRprop.vo", "C07/ProofsGD.vo", "C07/ProofsLS.vo", "C07/ProofsBfgs.vo", "C07/ProofsDense.vo",
+           "C07/ProofsRprop.vo", "C07/ProofsGD.vo", "C07/ProofsLS.vo", "C07/ProofsBfgs.vo", "C07/ProofsDense.vo", "C07/ProofsAdam.vo",
            "C07/Proofs.vo", "C07/Refuted.vo", "C07/Props.vo"]
 PROPS = ["C07/Props.v"]
 CORPUS = os.path.join(vlib.ROOT, "corpus/C07/corpus.jsonl")
@@ -71,8 +71,14 @@ def corr(ctx, binary, n):
 
 def hunt(ctx, binary, bad):
     rp = os.path.join(ctx.dir, "hunt_in.json")
-    json.dump({"cases": bad[:40]}, open(rp, "w"))
-    n = 1500 if ctx.tier == "quick" else 20000
+    corpus = []
+    if os.path.exists(CORPUS):
+        for l in open(CORPUS):
+            l = l.strip()
+            if l and not l.startswith("#"):
+                corpus.append({"spec": json.loads(l)})
+    json.dump({"cases": bad[:40] + corpus}, open(rp, "w"))
+    n = 3000 if ctx.tier == "quick" else 30000
     rc, out = vlib.sh([binary, "--extra", "hunt", "--replay", rp, "--n", str(n), "--seed", str(ctx.seed),
                        "--out", ctx.dir], timeout=900, env=vlib.go_env())
     hp = os.path.join(ctx.dir, "hunt.json")
@@ -96,7 +102,7 @@ def run(ctx):
         ctx.violation({"obligation": "build of harness/c07 against " + vlib.REPO, "log": blog[-3000:]}, False,
                       "tie lost: the C07 harness no longer builds against the library")
         return
-    n = 320 if ctx.tier == "quick" else 3000
+    n = 600 if ctx.tier == "quick" else 4000
     bad = corr(ctx, binary, n)
     known = known_sites()
     h = hunt(ctx, binary, bad)
